@@ -592,7 +592,7 @@ func checkDecoderPanics(c *km.Ctx, s *km.Sem) {
 			for top.Parent() != nil {
 				top = top.Parent()
 			}
-			if _, out := outputSide[top.Name()]; out {
+			if _, out := outputSide[km.NameOf(top)]; out {
 				continue
 			}
 			scope[fn] = true
@@ -686,7 +686,7 @@ func checkDecoderPanics(c *km.Ctx, s *km.Sem) {
 					guarded, how = true, "index < len guard"
 				} else if foundIndexOf(st, idx, base) {
 					guarded, how = true, "index returned by slices.Index/IndexFunc over the same slice, tested >= 0"
-				} else if fn.Name() == "decodeIPV4AddressChoice" {
+				} else if km.NameOf(fn) == "decodeIPV4AddressChoice" {
 					continue // judged by the dedicated bounded-copy obligations below
 				}
 			case *ssa.Slice:
@@ -746,9 +746,9 @@ func checkDecoderPanics(c *km.Ctx, s *km.Sem) {
 					guarded, how = true, "every service handler is wrapped by NewLoggingHandler"
 				}
 			}
-			key := fn.Name() + "|" + rs.expr
+			key := km.NameOf(fn) + "|" + rs.expr
 			if fn.Parent() != nil {
-				key = fn.Parent().Name() + "$|" + rs.expr
+				key = km.NameOf(fn.Parent()) + "$|" + rs.expr
 			}
 			if !guarded {
 				if reason, ok := reviewedRisks[key]; ok {
